@@ -36,6 +36,9 @@ func init() {
 				Old: "	if lastEventVersion == ms.currentVersion && loaderVersion >= ms.currentVersion {", New: "	if lastEventVersion >= ms.currentVersion && loaderVersion >= ms.currentVersion {"},
 			{Name: "seed-C20b-no-regroup-on-disable", File: "internal/metajournal/meta_metrics.go", Rule: "C20-R7",
 				Old: "			if !idExists || valueOld.Name != value.Name || valueOld.Disable != value.Disable {", New: "			if !idExists || valueOld.Name != value.Name {"},
+			{Name: "revert-fix-rebuild-name-index-by-iteration-order", File: "internal/metajournal/meta_metrics.go", Rule: "C20-R8",
+				Old: "			if cur, ok := ms.metricsByName[m.Name]; ok && cur.MetricID == m.MetricID {\n				metricsByName[m.Name] = m\n			}\n",
+				New: "			metricsByName[m.Name] = m\n"},
 			{Name: "diff-descending", File: "internal/metajournal/journal_fast_rpc.go", Rule: "C20-R5",
 				Old: "ms.order.AscendGreaterOrEqual(", New: "ms.order.DescendLessOrEqual("},
 		},
@@ -65,6 +68,47 @@ func runC20(c *core.Check) {
 	}
 	for _, w := range core.FieldWrites(pkgFns, tMS, "namespaceByName") {
 		checkByNameDelete(c, w, "namespaceByName", idField["namespaceByName"])
+	}
+
+	// ---- R8 ---------------------------------------------------------------------------
+	c.Rule("C20-R8", "K1 guard-dominance", 1, "when ApplyEvent rebuilds the name index from the id index (after a group change) an entry name -> metric is written only if the current name index already maps that name to the same metric id")
+	if fn := need(c, "C20-R8", "internal/metajournal.(*MetricsStorage).ApplyEvent"); fn != nil {
+		n := 0
+		for _, b := range fn.Blocks {
+			for _, in := range b.Instrs {
+				mu, ok := in.(*ssa.MapUpdate)
+				if !ok {
+					continue
+				}
+				if _, isMake := mu.Map.(*ssa.MakeMap); !isMake || !strings.HasSuffix(core.Expr(mu.Key), ".Name") {
+					continue
+				}
+				if !strings.Contains(core.TypeName(mu.Map.Type()), "format.MetricMetaValue") {
+					continue
+				}
+				n++
+				guarded := false
+				for _, g := range core.Facts(b) {
+					if len(g.Alts) != 1 {
+						continue
+					}
+					l := g.Alts[0]
+					if l.Op == token.EQL && l.Pol {
+						x, y := core.Expr(l.X), core.Expr(l.Y)
+						if (strings.Contains(x, ".metricsByName[") && strings.HasSuffix(x, "#0.MetricID") && strings.HasSuffix(y, ".MetricID")) ||
+							(strings.Contains(y, ".metricsByName[") && strings.HasSuffix(y, "#0.MetricID") && strings.HasSuffix(x, ".MetricID")) {
+							guarded = true
+						}
+					}
+				}
+				c.Require(guarded, "C20-R8", fmt.Sprintf("internal/metajournal.(*MetricsStorage).ApplyEvent/rebuild-name-index#%d", n), mu.Pos(),
+					"rebuilt name index keeps the current holder of each name",
+					"the rebuilt name index takes name -> metric from the iteration over the id index: when a not yet updated metric still carries a name that another metric already took, map iteration order decides which one the lookup returns")
+			}
+		}
+		if n == 0 {
+			c.Undecided("C20-R8", "internal/metajournal.(*MetricsStorage).ApplyEvent/rebuild-name-index", fn.Pos(), "no rebuild of the name index found")
+		}
 	}
 
 	// ---- R2 ---------------------------------------------------------------------------
